@@ -1381,7 +1381,9 @@ func TestCheck(t *testing.T) {
 	schedDone := make(chan struct{})
 	go func() {
 		defer close(schedDone)
+		ts := time.Now()
 		r.RunJobs(len(schedJobs(r.Thorough())), 12, runner.Pick(r, 4*time.Minute, 12*time.Minute))
+		r.Set("schedule_part_wall_s", time.Since(ts).Seconds())
 	}()
 
 	t0 := time.Now()
@@ -1436,7 +1438,6 @@ func TestCheck(t *testing.T) {
 	wg.Wait()
 	r.Set("enumeration_wall_s", time.Since(t0).Seconds())
 	<-schedDone
-	r.Set("schedule_part_wall_s", time.Since(t0).Seconds())
 
 	for _, msg := range c.infra {
 		r.Infra("%s", msg)
